@@ -7,6 +7,7 @@ import (
 	"os"
 	"path/filepath"
 	"regexp"
+	"runtime"
 	"sort"
 	"strconv"
 	"strings"
@@ -43,6 +44,22 @@ func main() {
 		to = 30 * time.Second // slowest claimed obligation: ~9 s (C19 isDomainAllowed inv-step); everything else < 5 s
 		if *tier == "thorough" {
 			to = 60 * time.Second
+		}
+	}
+	// A busy machine stretches solver wall time (measured: 3x at load 20 on 16 cores). The limits above are
+	// meant for an idle machine, so they are scaled by the load at start-up (never below 1x, at most 3x): an
+	// obligation that needs 10 s idle must not be reported as undecided because other jobs share the cores.
+	if *timeout == 0 {
+		if b, err := os.ReadFile("/proc/loadavg"); err == nil {
+			var l1 float64
+			fmt.Sscanf(string(b), "%f", &l1)
+			f := l1 / (0.5 * float64(runtime.NumCPU()))
+			if f > 3 {
+				f = 3
+			}
+			if f > 1 {
+				to = time.Duration(float64(to) * f)
+			}
 		}
 	}
 	r := &vc.Run{Prop: *prop, Tier: *tier, Repo: *repo, Verif: *verif, Seed: seed, Timeout: to, Verbose: *verbose, OnlyFunc: *only, UpdateLedger: *update}
